@@ -13,6 +13,12 @@ import random
 import shutil
 import sys
 
+from vf.oracles.c12inproc import (ORDERS3D, ase_cases, lattice_cases, r6 as _r6,
+                                 repo_examples as _repo_examples, turtle_cases)
+from vf.oracles.c12judge import (Out, judge_path, judge_retrace,
+                                 maxdiff as _maxdiff, scaled as _scaled,
+                                 sgn as _sgn)
+
 PROPERTY = "C12"
 LEVEL = "fault_enumeration"
 K_POLLS = 20
@@ -20,11 +26,16 @@ RULE = (
     "One case = one engine.propagate() call of a real engine class. External "
     "engines run against stub MD programs whose dynamics (free flight or a "
     "harmonic bond, velocity Verlet) is known to the harness and whose write "
-    "schedule is data: frames per poll (1-6), byte cuts inside frames, "
-    "per-frame box (LAMMPS/GROMACS), lagging velocity file (CP2K), TRR byte "
-    "order/precision, in baton mode (the engine's own sleep() hands the "
-    "writer one token: deterministic frames-per-poll and cut patterns, "
-    "logical poll clock) or free running. Cases are drawn per engine from "
+    "schedule is data: frames per poll (1-6), byte cuts inside frames (also "
+    "one byte before / after a frame end, and 'last frame minus its newline, "
+    "then everything else and exit in one step'), per-frame box "
+    "(LAMMPS/GROMACS), lagging velocity file (CP2K), TRR byte order / "
+    "precision, helper process in the program's process group, in baton mode "
+    "(the engine's own sleep() hands the writer one token: deterministic "
+    "frames-per-poll and cut patterns, logical poll clock; optionally the "
+    "writer also advances right after the text reader consumed a line "
+    "without newline = the file grows during a read) or free running. Cases "
+    "are drawn per engine from "
     "order parameter {Position, Distance(periodic or not), Velocity, "
     "Distancevel} x reverse x start vel_rev x subcycles 1-10 x maxlen 3-40 x "
     "stop kind {cross right, cross left, length limit, start outside}; "
@@ -34,7 +45,8 @@ RULE = (
     "early, inside frame data late, inside the would-be stop frame} x "
     "{exit 1, 2, 139, 255, SIGKILL, SIGSEGV, SIGABRT, SIGTERM} is covered "
     "completely for each external engine in every run (quick: once, "
-    "thorough: many contexts), plus early exit 0. In-process engines: "
+    "thorough: 10 contexts each), plus early exit 0 and 'the order function "
+    "raises at frame 1-6 while the program runs'. In-process engines: "
     f"TurtleMD (Langevin), ASE (VelocityVerlet/Langevin), Lattice, Ballistic "
     "with random start points, interfaces, subcycles and length limits. "
     "Oracles per call: frame 0 = start phase point; stored order of frame k "
@@ -59,6 +71,10 @@ ASSUMPTIONS = [
     "'crossing on the very last allowed frame' is not fixed by the property",
     "a program that exits 0 after writing fewer frames than requested is not "
     "required to raise; only success=False and correct frames are demanded",
+    "'the external program is stopped when propagation ends' is also demanded "
+    "when propagate ends with an exception (order function or reader raising)",
+    "letting the writer run between two readline() calls of the engine's text "
+    "reader is a legal interleaving (the program is a concurrent process)",
     "if the stop frame was completely written before the program failed, "
     "both returning the complete path and raising are accepted",
     "hangs are decided by counting the engine's own sleep() calls after the "
@@ -81,15 +97,6 @@ HOWS = [("exit", 1), ("exit", 2), ("exit", 139), ("exit", 255),
 POINTS = ["nofile", "empty", "in-first", "after-first", "boundary",
           "in-head", "in-data-early", "in-data-late", "in-stop-frame"]
 GRID = [(p, h) for p in POINTS for h in HOWS]
-ORDERS3D = [
-    {"class": "Position", "index": [0, 0], "periodic": False},
-    {"class": "Position", "index": [1, 0], "periodic": False},
-    {"class": "Distance", "index": [0, 1], "periodic": True},
-    {"class": "Distance", "index": [0, 1], "periodic": False},
-    {"class": "Velocity", "index": 0, "dim": "x"},
-    {"class": "Velocity", "index": 1, "dim": "y"},
-    {"class": "Distancevel", "index": [0, 1], "periodic": True},
-]
 BURSTS = [[1], [2], [3], [1, 2], [4, 1], [2, 3, 1], [5], [1, 1, 6], [2, 2]]
 
 
@@ -116,322 +123,14 @@ def plan(tier, seed):
 # --------------------------------------------------------------------------
 # helpers
 # --------------------------------------------------------------------------
-def _r6(v):
-    return round(v, 6)
-
-
 def _stub(name):
     p = os.path.join(STUBS, name)
     return p if os.access(p, os.X_OK) else f"{sys.executable} {p}"
 
 
-def _repo_examples():
-    import infretis
-    return os.path.join(os.path.dirname(os.path.dirname(infretis.__file__)),
-                        "examples")
-
-
-def _sgn(flag):
-    return -1.0 if flag else 1.0
-
-
-def _scaled(rows, s):
-    return [[s * c for c in r] for r in rows]
-
-
-def _flat(a):
-    return [c for r in a for c in (r if isinstance(r, (list, tuple)) else [r])]
-
-
-def _maxdiff(a, b):
-    return max(abs(p - q) for p, q in zip(_flat(a), _flat(b)))
-
-
-class Out:
-    """Result accumulator of one job."""
-
-    def __init__(self):
-        self.res = {"n": 0, "sigs": [], "events": {}, "violations": [],
-                    "samples": [], "reached": {}, "notes": [],
-                    "inconclusive": []}
-        self.per_mech = {}
-
-    def ev(self, k, n=1):
-        self.res["events"][k] = self.res["events"].get(k, 0) + n
-
-    def reach(self, k, n=1):
-        self.res["reached"][k] = self.res["reached"].get(k, 0) + n
-
-    def viol(self, mech, what, case, **detail):
-        self.ev("violation:" + mech)
-        self.per_mech[mech] = self.per_mech.get(mech, 0) + 1
-        if self.per_mech[mech] <= 2:
-            w = {"mech": mech, "what": what, "case": case}
-            w.update(detail)
-            self.res["violations"].append(w)
-
-
-# --------------------------------------------------------------------------
-# the oracles on one returned path
-# --------------------------------------------------------------------------
-def own_extraction_order(engine, pp, tag):
-    """Stored frame -> order through the engine's own machinery."""
-    from infretis.classes.system import System
-    s = System()
-    s.config, s.vel_rev = pp.config, pp.vel_rev
-    f = engine.dump_frame(s, deffnm=f"chk_{tag}")
-    s2 = System()
-    s2.config, s2.vel_rev = (f, 0), pp.vel_rev
-    return float(engine.calculate_order(s2)[0])
-
-
-def judge_path(out, kind, engine, spec, case, path, success, start, start_rev,
-               reverse, left, right, maxlen, truth=None, expect=None,
-               batches=None, tol_ind=1e-9, tol_truth=5e-5, short_ok=False,
-               tol_first=1e-6, short_mech=None):
-    """All per-path oracles. `start` = independent reading of the start
-    configuration; truth[k] = {"x","v","box"} of frame k of the known
-    dynamics in raw file coordinates (v = velocity the program integrates)."""
-    from vf.oracles import trajref as tr
-    pps = path.phasepoints
-    n = len(pps)
-    out.ev(f"{kind}:frames", n)
-    if n == 0:
-        if short_ok:
-            out.ev(f"{kind}:empty-path-after-clean-early-exit")
-        else:
-            out.viol(f"{kind}:empty-path-returned", "propagate returned an "
-                     "empty path without raising", case)
-        return None
-    stored = [float(p.order[0]) for p in pps]
-    frames, own, bad = [], [], []
-    for k, pp in enumerate(pps):
-        fr = tr.read_frame(pp.config)
-        frames.append(fr)
-        own.append(tr.order_value(spec, fr["x"],
-                                  _scaled(fr["v"], _sgn(pp.vel_rev)),
-                                  fr["box"]))
-    # (1) first frame = the start phase point -------------------------------
-    out.reach("first_frame")
-    o_start = tr.order_value(spec, start["x"],
-                             _scaled(start["v"], _sgn(start_rev)), start["box"])
-    v0_eff = _scaled(start["v"], _sgn(start_rev))
-    f0_eff = _scaled(frames[0]["v"], _sgn(pps[0].vel_rev))
-    first_bad = []
-    if abs(stored[0] - o_start) > tol_first:
-        first_bad.append(f"stored order {stored[0]!r} != order of the start "
-                         f"point {o_start!r}")
-    if _maxdiff(frames[0]["raw_x"], start["raw_x"]) > tol_truth:
-        first_bad.append("positions differ")
-    if _maxdiff(f0_eff, v0_eff) > tol_truth:
-        first_bad.append(f"velocity direction differs: frame {f0_eff} start "
-                         f"{v0_eff}")
-    # (2) stored order = order of the referenced frame -----------------------
-    eng_route = []
-    for k, pp in enumerate(pps):
-        out.reach("frame_order_independent")
-        out.reach("frame_order_own_extraction")
-        try:
-            oe = own_extraction_order(engine, pp, k)
-        except Exception as exc:  # extraction itself failing is a finding
-            oe = None
-            out.viol(f"{kind}:own-frame-extraction-raises",
-                     f"dump_frame/calculate_order of frame {k} raised "
-                     f"{type(exc).__name__}: {exc}", case)
-        eng_route.append(oe)
-        if abs(stored[k] - own[k]) > tol_ind or (
-                oe is not None and abs(stored[k] - oe) > 1e-7):
-            bad.append(k)
-    sign_explains = mirror_explains = False
-    if bad or first_bad:
-        # does "velocity sign opposite to the frame's vel_rev" explain it?
-        flipped = [tr.order_value(spec, fr["x"],
-                                  _scaled(fr["v"], -_sgn(pp.vel_rev)),
-                                  fr["box"]) for fr, pp in zip(frames, pps)]
-        sign_explains = all(abs(stored[k] - flipped[k]) <= 1e-7 for k in bad) \
-            and (not first_bad or bad[:1] == [0]) and bool(bad)
-        if batches and kind == "lammps" and bad:
-            mirror = {}
-            s = 0
-            for b in batches:
-                for k in range(s, s + b):
-                    mirror[k] = 2 * s + b - 1 - k
-                s += b
-            pred = {}
-            for k in bad:
-                m = mirror.get(k)
-                if m is None or m >= len(frames) and truth is None:
-                    break
-                bx = (frames[m]["raw_box"] if m < len(frames)
-                      else truth[m]["box"])
-                xs = [[c - b[0] for c, b in zip(r, bx)]
-                      for r in frames[k]["raw_x"]]
-                pred[k] = tr.order_value(
-                    spec, xs, _scaled(frames[k]["v"], _sgn(pps[k].vel_rev)),
-                    [b[1] - b[0] for b in bx])
-            mirror_explains = len(pred) == len(bad) and all(
-                abs(stored[k] - pred[k]) <= 1e-7 for k in bad)
-    if bad:
-        if kind == "gromacs" and reverse and sign_explains:
-            mech = "gromacs:backward-frames-velocity-sign-not-reversed"
-        elif mirror_explains:
-            mech = "lammps:frame-paired-with-box-of-mirror-frame-in-poll"
-        else:
-            mech = f"{kind}:stored-order-differs-from-referenced-frame"
-        k = bad[0]
-        out.viol(mech, f"{len(bad)}/{n} frames: e.g. frame {k} stored "
-                 f"{stored[k]!r}, recomputed from {os.path.basename(pps[k].config[0])}"
-                 f"[{pps[k].config[1]}] independently {own[k]!r}, through the "
-                 f"engine's own extraction {eng_route[k]!r}", case,
-                 bad_frames=bad[:12], batches=batches)
-    if first_bad and not (bad[:1] == [0] and (mirror_explains or (
-            kind == "gromacs" and reverse and sign_explains))):
-        out.viol(f"{kind}:first-frame-differs-from-start-point",
-                 "; ".join(first_bad), case)
-    # (2c) the referenced frame is frame k of the dynamics that was run ------
-    if truth is not None:
-        for k, pp in enumerate(pps):
-            out.reach("frame_is_kth_of_dynamics")
-            t = truth[k]
-            probs = []
-            if pp.config[1] != k:
-                probs.append(f"references index {pp.config[1]}")
-            if _maxdiff(frames[k]["raw_x"], t["x"]) > tol_truth:
-                probs.append("positions are not those of step k")
-            veff = _scaled(frames[k]["v"], _sgn(pp.vel_rev))
-            if _maxdiff(veff, _scaled(t["v"], _sgn(reverse))) > tol_truth:
-                probs.append("velocity (in the frame's direction) is not "
-                             "that of step k")
-            if t.get("box") is not None and "raw_box" in frames[k] and \
-                    _maxdiff(frames[k]["raw_box"], t["box"]) > tol_truth:
-                probs.append("box is not that of step k")
-            if probs:
-                out.viol(f"{kind}:frame-is-not-kth-configuration-of-the-run",
-                         f"frame {k}: " + "; ".join(probs), case)
-                break
-    # (3) stop rule and success flag -----------------------------------------
-    out.reach("stop_rule")
-    inside = [left < o < right for o in stored]
-    on_intf = any(min(abs(o - left), abs(o - right)) < 1e-9 for o in stored)
-    if on_intf:
-        # an order exactly on an interface (possible only for a frame whose
-        # stored order is wrong for another reason): < vs <= is not fixed
-        out.ev(f"{kind}:stored-order-exactly-on-an-interface(not judged)")
-    elif not all(inside[:-1]):
-        k = inside.index(False)
-        out.viol(f"{kind}:stop-rule:continued-past-first-outside-frame",
-                 f"frame {k} of {n} has order {stored[k]!r} outside "
-                 f"({left}, {right})", case)
-    elif inside[-1] and n < maxlen and not short_ok:
-        out.viol(short_mech or
-                 f"{kind}:stop-rule:stopped-inside-before-length-limit",
-                 f"{n} frames, last order {stored[-1]!r} inside ({left}, "
-                 f"{right}), maxlen {maxlen}", case)
-    if n > maxlen:
-        out.viol(f"{kind}:stop-rule:longer-than-maxlen", f"{n} > {maxlen}",
-                 case)
-    if on_intf:
-        return {"frames": frames, "stored": stored}
-    if not inside[-1] and n == maxlen:
-        out.ev(f"{kind}:crossing-on-last-allowed-frame(not judged)")
-    elif bool(success) != (not inside[-1]):
-        out.viol(f"{kind}:stop-rule:success-flag-wrong",
-                 f"success={success} but the last of {n} frames (maxlen "
-                 f"{maxlen}) has order {stored[-1]!r}, interfaces ({left}, "
-                 f"{right})", case)
-    if expect is not None and not bad and not (inside[-1] and n < maxlen) \
-            and (n != expect["len"] or bool(success) != expect["success"]):
-        out.viol(f"{kind}:stop-rule:differs-from-known-dynamics",
-                 f"returned {n} frames success={success}; the known "
-                 f"trajectory leaves ({left}, {right}) at frame "
-                 f"{expect['len'] - 1} (expected success="
-                 f"{expect['success']})", case)
-    return {"frames": frames, "stored": stored}
-
-
-def judge_retrace(out, kind, case, fwd, bwd, k, tol):
-    """bwd started from frame k of fwd (both = judge_path results)."""
-    out.reach("retrace")
-    m = min(k, len(bwd["frames"]) - 1)
-    for j in range(m + 1):
-        fb, ff = bwd["frames"][j], fwd["frames"][k - j]
-        if _maxdiff(fb["raw_x"], ff["raw_x"]) > tol:
-            out.viol(f"{kind}:backward-does-not-retrace:positions",
-                     f"backward frame {j} != forward frame {k - j}: "
-                     f"{fb['raw_x']} vs {ff['raw_x']}", case)
-            return
-        if _maxdiff(fb["v"], _scaled(ff["v"], -1.0)) > tol:
-            out.viol(f"{kind}:backward-does-not-retrace:velocities",
-                     f"backward frame {j} velocities {fb['v']} are not the "
-                     f"reversed forward ones {ff['v']}", case)
-            return
-    out.ev(f"{kind}:retraced_frames", m + 1)
-    bad = [j for j in range(m + 1)
-           if abs(bwd["stored"][j] - fwd["stored"][k - j]) > max(tol, 1e-7)]
-    if bad:
-        neg = all(abs(bwd["stored"][j] + fwd["stored"][k - j]) <= max(
-            tol, 1e-7) for j in bad)
-        mech = ("gromacs:backward-frames-velocity-sign-not-reversed"
-                if kind == "gromacs" and neg else
-                f"{kind}:backward-does-not-retrace:orders")
-        j = bad[0]
-        out.viol(mech, f"stored order of backward frame {j} "
-                 f"{bwd['stored'][j]!r} != forward frame {k - j} "
-                 f"{fwd['stored'][k - j]!r} ({len(bad)} frames)", case)
-
-
 # --------------------------------------------------------------------------
 # external engines against the stubs
 # --------------------------------------------------------------------------
-class _GrowingFile:
-    """File proxy used by ReaderTap: right after the reader consumed a line
-    that has no newline yet, the writer performs its next step - the
-    interleaving 'the file grows while it is being read', made deterministic."""
-
-    def __init__(self, fh, tap):
-        self._fh, self._tap = fh, tap
-
-    def readline(self, *a):
-        line = self._fh.readline(*a)
-        if line and not line.endswith("\n") and self._tap.grow > 0:
-            self._tap.grow -= 1
-            self._tap.grown += 1
-            self._tap.baton.tick()
-        return line
-
-    def __getattr__(self, name):
-        return getattr(self._fh, name)
-
-
-class ReaderTap:
-    """Observes how many frames each poll of the on-the-fly reader returned;
-    with grow > 0 (baton mode) also lets the file grow during a read."""
-
-    def __init__(self, baton=None, grow=0):
-        from infretis.classes.engines import engineparts as ep
-        self.ep, self.calls = ep, []
-        self.baton, self.grow, self.grown = baton, grow, 0
-        self.orig = ep.ReadAndProcessOnTheFly.read_and_process_content
-        tap = self
-
-        def wrapped(rd):
-            if tap.grow > 0 and not getattr(rd, "_vf_grow", False):
-                fn = rd.processing_function
-
-                def pf(reader, _fn=fn):
-                    reader.file_object = _GrowingFile(reader.file_object, tap)
-                    return _fn(reader)
-                rd.processing_function, rd._vf_grow = pf, True
-            res = tap.orig(rd)
-            nfr = len(res[0]) if isinstance(res, tuple) else len(res)
-            tap.calls.append((os.path.basename(str(rd.file_path)), nfr))
-            return res
-        ep.ReadAndProcessOnTheFly.read_and_process_content = wrapped
-
-    def close(self):
-        self.ep.ReadAndProcessOnTheFly.read_and_process_content = self.orig
-
-
 class OrderBomb:
     """Order parameter that fails at its n-th evaluation (a user-supplied
     order function raising in the middle of a propagation)."""
@@ -462,7 +161,6 @@ class ExtRig:
         import numpy as np
         self.kind, self.root = kind, os.path.join(scratch, kind)
         os.makedirs(self.root, exist_ok=True)
-        self.np = np
         self.rgen = np.random.default_rng(seed)
         sub = {"lammps": "lammps/H2/lammps_input", "cp2k": "cp2k/H2/cp2k_input",
                "gromacs": "gromacs/H2/gromacs_input"}[kind]
@@ -636,7 +334,6 @@ def choose_interfaces(rng, orders, maxlen, want, min_c=1):
 def run_external(out, rig, rng, fam, spec, ctx, reverse, start_rev, maxlen,
                  want, fault=None, start_cfg=None, label="", bomb=0):
     """One propagate of an external engine; returns judge_path's result."""
-    import numpy as np  # noqa: F401
     from infretis.classes.path import Path
     from infretis.classes.system import System
     from vf import baton as bt
@@ -730,7 +427,7 @@ def run_external(out, rig, rng, fam, spec, ctx, reverse, start_rev, maxlen,
     path = Path(maxlen=maxlen)
     ens = {"ens_name": "007", "interfaces": (left, (left + right) / 2, right)}
     import infretis.classes.engines.enginebase as eb
-    tap = ReaderTap(baton, pl["midread"] if pl["mode"] == "baton" else 0)
+    tap = bt.ReaderTap(baton, pl["midread"] if pl["mode"] == "baton" else 0)
     baton.install(rig.module(), [eb] if kind == "gromacs" else [])
     if bomb:
         engine.order_function = OrderBomb(engine.order_function, bomb)
@@ -961,263 +658,6 @@ def external_cases(out, job, scratch, rng):
 def _tidy(res):
     if res and res.get("cdir"):
         shutil.rmtree(res["cdir"], ignore_errors=True)
-
-
-# --------------------------------------------------------------------------
-# in-process engines
-# --------------------------------------------------------------------------
-def run_inproc(out, kind, engine, spec, case, start_cfg, start_rev, reverse,
-               left, right, maxlen, truth=None, expect=None, tol_ind=1e-9):
-    from infretis.classes.path import Path
-    from infretis.classes.system import System
-    from vf.oracles import trajref as tr
-    start = tr.read_frame(start_cfg)
-    if case.get("box") is not None and start["box"] is None:
-        start["box"] = case["box"]
-    system = System()
-    system.config, system.vel_rev = start_cfg, start_rev
-    path = Path(maxlen=maxlen)
-    ens = {"ens_name": "003", "interfaces": (left, (left + right) / 2, right)}
-    out.res["n"] += 1
-    try:
-        success, _ = engine.propagate(path, ens, system, reverse=reverse)
-    except Exception as exc:
-        out.viol(f"{kind}:propagate-raised-on-healthy-program",
-                 f"{type(exc).__name__}: {exc}"[:300], case)
-        return None
-    out.ev(f"{kind}:propagations")
-    out.ev(f"{kind}:reverse" if reverse else f"{kind}:forward")
-    res = judge_path(out, kind, engine, spec, case, path, success, start,
-                     start_rev, reverse, left, right, maxlen, truth, expect,
-                     None, tol_ind=tol_ind, tol_truth=1e-6)
-    if path.length >= 2:
-        out.res["sigs"].append("|".join(str(c) for c in (
-            kind, spec, reverse, start_rev, maxlen, case.get("subcycles"),
-            path.length, bool(success), case.get("sigx"))))
-    if res is not None:
-        res["path"] = path
-    return res
-
-
-def lattice_cases(out, job, scratch, rng):
-    import numpy as np
-    from vf.plugins.lattice import BallisticEngine, LatticeEngine, SiteOrder
-    wdir = os.path.join(scratch, "lat")
-    os.makedirs(wdir, exist_ok=True)
-    for i in range(job["ballistic"] + job["lattice"]):
-        ball = i < job["ballistic"]
-        nsub = rng.choice([1, 1, 2, 3, 7, 10])
-        usev = rng.random() < 0.5
-        spec = {"class": "Site", "velocity": usev}
-        lo, hi = -rng.randint(2, 9), rng.randint(3, 12)
-        if ball:
-            eng = BallisticEngine(subcycles=nsub, lo=lo, hi=hi)
-        else:
-            eng = LatticeEngine(subcycles=nsub, wall=lo)
-        eng.order_function = SiteOrder(velocity=usev)
-        eng.exe_dir = wdir
-        eng.rgen = np.random.default_rng(rng.randrange(2 ** 31))
-        x0, v0 = rng.randint(lo + 1, hi - 1), rng.choice([-1, 1])
-        start_rev, reverse = rng.random() < 0.3, rng.random() < 0.5
-        maxlen = rng.choice([2, 3, 5, 8, 13, 30, 60])
-        left = rng.randint(lo - 1, x0) - 0.4 if rng.random() < .8 else -99.4
-        right = rng.randint(x0, hi + 1) + 0.6 if rng.random() < .8 else 99.6
-        if rng.random() < 0.08:
-            left, right = x0 + 0.6, x0 + 5.6       # start outside
-        f = os.path.join(wdir, f"s{i}.lat")
-        with open(f, "w") as fh:
-            fh.write(f"{x0} {v0}\n")
-        case = {"engine": "ballistic" if ball else "lattice", "x0": x0,
-                "v0": v0, "lo": lo, "hi": hi, "subcycles": nsub,
-                "order": spec, "reverse": reverse, "start_vel_rev": start_rev,
-                "maxlen": maxlen, "interfaces": [left, right],
-                "sigx": (x0, v0, lo, hi, left, right)}
-        truth = expect = None
-        if ball:  # the ballistic dynamics is known: simulate it independently
-            x, v = x0, v0 * int(_sgn(start_rev) * _sgn(reverse))
-            truth = []
-            for _ in range(maxlen + 1):
-                truth.append({"x": [[float(x), 0., 0.]],
-                              "v": [[float(v), 0., 0.]], "box": None})
-                for _ in range(nsub):
-                    if v == 0:
-                        v = 1
-                    if lo <= x + v <= hi:
-                        x += v
-                    else:
-                        v = -v
-            orders = [t["x"][0][0] + (0.25 * t["v"][0][0] * _sgn(reverse)
-                                      if usev else 0.0) for t in truth]
-            c = next((k for k in range(maxlen) if not
-                      left < orders[k] < right), None)
-            if c is None:
-                expect = {"len": maxlen, "success": False}
-            elif c < maxlen - 1:
-                expect = {"len": c + 1, "success": True}
-        res = run_inproc(out, case["engine"], eng, spec, case, (f, 0),
-                         start_rev, reverse, left, right, maxlen, truth,
-                         expect, tol_ind=1e-12)
-        if ball and res and len(res["frames"]) >= 3 and not reverse and \
-                not start_rev and rng.random() < 0.7:
-            k = rng.randint(1, len(res["frames"]) - 1)
-            pp = res["path"].phasepoints[k]
-            bcase = dict(case, reverse=True, label=f"backward from frame {k}")
-            bwd = run_inproc(out, "ballistic", eng, spec, bcase, pp.config,
-                             False, True, -99.4, 99.6, k + 3, None, None,
-                             tol_ind=1e-12)
-            if bwd:
-                judge_retrace(out, "ballistic", bcase, res, bwd, k, 1e-12)
-        for fn in os.listdir(wdir):
-            os.remove(os.path.join(wdir, fn))
-
-
-def turtle_cases(out, job, scratch, rng):
-    import numpy as np
-    from infretis.classes.engines.turtlemdengine import TurtleMDEngine
-    from infretis.classes.orderparameter import create_orderparameter
-    from vf.stubs import stublib as sl
-    wdir = os.path.join(scratch, "tmd")
-    os.makedirs(wdir, exist_ok=True)
-    for i in range(job["turtle"]):
-        one_d = rng.random() < 0.5
-        nsub = rng.choice([1, 2, 3, 10])
-        temp = rng.choice([0.07, 0.3, 1.0])
-        integ = {"class": "LangevinInertia", "settings": {
-            "gamma": rng.choice([0.3, 1.0, 5.0]), "beta": 1.0 / temp}}
-        if one_d:
-            box = None
-            eng = TurtleMDEngine(
-                0.025, nsub, temp, 1.0, integ,
-                {"class": "DoubleWell", "settings": {"a": 1.0, "b": 2.0,
-                                                     "c": 0.0}},
-                {"mass": [1.0], "name": ["Z"], "pos": [[-1.0]]},
-                {"periodic": [False]})
-            spec = rng.choice([
-                {"class": "Position", "index": [0, 0], "periodic": False},
-                {"class": "Velocity", "index": 0, "dim": "x"}])
-            x0 = [[_r6(rng.uniform(-1.2, 1.2)), 0.0, 0.0]]
-            v0 = [[_r6(rng.uniform(-1, 1)), 0.0, 0.0]]
-            names = ["Z"]
-        else:
-            L = rng.choice([2.5, 3.0, 4.0])
-            box = [L, L, L]
-            eng = TurtleMDEngine(
-                0.002, nsub, temp * 300, 0.0083144621,
-                {"class": "LangevinInertia", "settings": {
-                    "gamma": rng.choice([1.0, 10.0]),
-                    "beta": 1.0 / (0.0083144621 * temp * 300)}},
-                {"class": "LennardJones", "settings": {"parameters": {
-                    "1": {"sigma": 0.3, "epsilon": 25.0, "rcut": 1.2}}}},
-                {"mass": [1.008, 1.008], "name": ["H", "H"],
-                 "pos": [[0.0, 0.0, 0.0], [0.4, 0.0, 0.0]]},
-                {"periodic": [True, True, True], "low": [0, 0, 0],
-                 "high": box})
-            spec = rng.choice(ORDERS3D)
-            a = [_r6(rng.uniform(0.2, L - 0.2)) for _ in range(3)]
-            d = rng.uniform(0.32, 0.6)
-            x0 = [a, [_r6(a[0] + d), _r6(a[1] + rng.uniform(-.05, .05)),
-                      a[2]]]
-            v0 = [[_r6(rng.uniform(-3, 3)) for _ in range(3)]
-                  for _ in range(2)]
-            names = ["H", "H"]
-        eng.order_function = create_orderparameter({"orderparameter":
-                                                    dict(spec)})
-        eng.exe_dir = wdir
-        eng.rgen = np.random.default_rng(rng.randrange(2 ** 31))
-        f = os.path.join(wdir, f"s{i}.xyz")
-        with open(f, "w") as fh:
-            fh.write(sl.xyz_conf(names, x0, v0, box))
-        start_rev, reverse = rng.random() < 0.3, rng.random() < 0.5
-        from vf.oracles import trajref as tr
-        o0 = tr.order_value(spec, x0, _scaled(v0, _sgn(start_rev)), box)
-        w = rng.choice([0.02, 0.1, 0.5, 3.0])
-        left, right = o0 - w * rng.uniform(0.3, 1), o0 + w * rng.uniform(.3, 1)
-        if rng.random() < 0.08:
-            left, right = o0 + 0.01, o0 + 1.0
-        maxlen = rng.choice([3, 5, 10, 25, 60])
-        case = {"engine": "turtlemd", "dim": 1 if one_d else 3, "x0": x0,
-                "v0": v0, "box": box, "subcycles": nsub, "order": spec,
-                "reverse": reverse, "start_vel_rev": start_rev,
-                "maxlen": maxlen, "interfaces": [left, right],
-                "integrator": integ, "sigx": (x0, v0)}
-        run_inproc(out, "turtlemd", eng, spec, case, (f, rng.choice([0, None])),
-                   start_rev, reverse, left, right, maxlen, tol_ind=1e-7)
-        for fn in os.listdir(wdir):
-            os.remove(os.path.join(wdir, fn))
-
-
-def ase_cases(out, job, scratch, rng):
-    import ase
-    import numpy as np
-    from ase import units
-    from infretis.classes.engines.ase_engine import ASEEngine
-    from infretis.classes.orderparameter import create_orderparameter
-    from vf.oracles import trajref as tr
-    wdir = os.path.join(scratch, "ase")
-    os.makedirs(wdir, exist_ok=True)
-    calc = os.path.join(_repo_examples(), "ase", "H2", "H2-calc.py")
-    for i in range(job["ase"]):
-        np.random.seed(rng.randrange(2 ** 31))   # ASE Langevin uses it
-        free = rng.random() < 0.4
-        integ = "velocityverlet" if free or rng.random() < 0.6 else "langevin"
-        nsub = rng.choice([1, 2, 5])
-        dt = rng.choice([0.2, 0.5])
-        eng = ASEEngine(dt, 300.0, nsub, ".", integ,
-                        {"module": calc, "class": "LennardJonesCalc",
-                         "sigma": 0.0 if free else 3.0, "epsilon": 0.2591,
-                         "rc": 12.0, "smooth": False},
-                        langevin_friction=0.01, langevin_fixcm=False,
-                        exe_path=wdir)
-        spec = rng.choice(ORDERS3D)
-        eng.order_function = create_orderparameter({"orderparameter":
-                                                    dict(spec)})
-        eng.exe_dir = wdir
-        # LJ cutoff 12: with a small cell, image pairs sit near the cutoff and
-        # ASE's skin neighbour list makes the force depend on history (not
-        # time reversible, not the engine's doing): retrace cases use L = 30
-        L = 30.0 if integ == "velocityverlet" else rng.choice([9.0, 12.0, 30.])
-        d = rng.uniform(3.2, 5.5)
-        a = [rng.uniform(1, 5) for _ in range(3)]
-        x0 = [a, [a[0] + d, a[1] + rng.uniform(-.3, .3), a[2]]]
-        v0 = [[rng.uniform(-.05, .05) * units.Ang / units.fs
-               for _ in range(3)] for _ in range(2)]
-        atoms = ase.Atoms("H2", positions=x0, cell=[L, L, L], pbc=True)
-        atoms.set_velocities(np.array(v0))
-        f = os.path.join(wdir, f"s{i}.traj")
-        atoms.write(f)
-        start = tr.read_frame((f, 0))
-        start_rev, reverse = rng.random() < 0.3, rng.random() < 0.5
-        maxlen = rng.choice([4, 8, 15, 30])
-        o0 = tr.order_value(spec, start["x"],
-                            _scaled(start["v"], _sgn(start_rev)), start["box"])
-        w = rng.choice([0.02, 0.2, 1.0]) * (0.1 if spec["class"] in (
-            "Velocity", "Distancevel") else 1.0)
-        left, right = o0 - w * rng.uniform(.3, 1), o0 + w * rng.uniform(.3, 1)
-        truth = None
-        if free:
-            vr = _scaled(start["v"], _sgn(start_rev) * _sgn(reverse))
-            truth = [{"x": [[c + w_ * k * nsub * dt * units.fs
-                             for c, w_ in zip(r, rv)]
-                            for r, rv in zip(start["x"], vr)],
-                      "v": vr, "box": None} for k in range(maxlen + 1)]
-        case = {"engine": "ase", "integrator": integ, "free_flight": free,
-                "x0": x0, "v0": v0, "cell": L, "subcycles": nsub,
-                "timestep": dt, "order": spec, "reverse": reverse,
-                "start_vel_rev": start_rev, "maxlen": maxlen,
-                "interfaces": [left, right], "sigx": i}
-        res = run_inproc(out, "ase", eng, spec, case, (f, 0), start_rev,
-                         reverse, left, right, maxlen, truth)
-        if integ == "velocityverlet" and res and not reverse and \
-                not start_rev and len(res["frames"]) >= 3:
-            k = rng.randint(1, len(res["frames"]) - 1)
-            bcase = dict(case, reverse=True, label=f"backward from frame {k}")
-            bwd = run_inproc(out, "ase", eng, spec, bcase,
-                             res["path"].phasepoints[k].config, False, True,
-                             -1e9, 1e9, k + 2)
-            if bwd:
-                judge_retrace(out, "ase", bcase, res, bwd, k, 1e-7)
-        for fn in os.listdir(wdir):
-            os.remove(os.path.join(wdir, fn))
 
 
 def work(job, scratch):
